@@ -1,1 +1,185 @@
-/- C02: property theorems (not built yet). -/
+/-
+  C02 — Formula translation is meaning-preserving (precedence, associativity, literals).
+
+  Statement (properties.jsonl): "Every well-formed Excel formula built from literals, references, parentheses, the
+  unary, postfix and binary operators and function calls compiles to code whose result equals the result of
+  evaluating the formula by Excel's grammar: negation binds tighter than %, then ^, then * /, then + -, then &, then
+  comparisons, all binary operators left-associative, parentheses override. Literals denote themselves: a text
+  literal yields exactly its characters (doubled quotes, backslashes, newlines, braces), numbers their value,
+  TRUE/FALSE and error literals themselves."
+
+  Model: Pycel/Model/Formula/*.lean (excelformula.py 53-150, 267-459, 641-822, 955-1028).
+    tokens --amend--> `parseRpn` (shunting-yard, precedences from the LIVE table Generated/Prec.lean) --> `buildAst`
+           --> `emit` (Python tokens) --> `pyParse` (model of Python's expression grammar) --> `evalPy`
+  Specification side: `Surf` (surface syntax with redundant parentheses), `Surf.wf` (the levelled grammar of the
+  statement), `erase` (the tree it denotes), `toPy` / `evalExcel` (its meaning).
+  Operator run-time semantics are a parameter `sem : Sem α` (they belong to C10); the theorems hold for every `sem`.
+-/
+import Pycel.Lemmas.FormulaParse
+import Pycel.Lemmas.FormulaEmit
+import Pycel.Lemmas.FormulaNumber
+import Pycel.Lemmas.FormulaAmend
+namespace Pycel.Formula
+
+/-! ### "negation binds tighter than %, then ^, then * /, then + -, then &, then comparisons" — the live table -/
+
+/-- the precedences read from `Token.precedences` are strictly ordered as the statement says -/
+theorem C02_levels :
+    (Tok.prec .pre).1 > (Tok.prec .post).1 ∧ (Tok.prec .post).1 > (Tok.prec (.inf .pow)).1 ∧
+    (Tok.prec (.inf .pow)).1 > (Tok.prec (.inf .mul)).1 ∧ (Tok.prec (.inf .mul)).1 = (Tok.prec (.inf .div)).1 ∧
+    (Tok.prec (.inf .div)).1 > (Tok.prec (.inf .add)).1 ∧ (Tok.prec (.inf .add)).1 = (Tok.prec (.inf .sub)).1 ∧
+    (Tok.prec (.inf .sub)).1 > (Tok.prec (.inf .concat)).1 ∧
+    ∀ c ∈ [InOp.eq, .lt, .gt, .le, .ge, .ne], (Tok.prec (.inf .concat)).1 > (Tok.prec (.inf c)).1 ∧
+      (Tok.prec (.inf c)).1 = (Tok.prec (.inf .eq)).1 := by decide
+
+/-- "all binary operators left-associative" (and `%` too; the prefix minus is the only right-associative token) -/
+theorem C02_left_assoc : (∀ op : InOp, (Tok.prec (.inf op)).2 = true) ∧ (Tok.prec .post).2 = true ∧
+    (Tok.prec .pre).2 = false := by
+  refine ⟨fun op => by cases op <;> decide, by decide, by decide⟩
+
+/-- the live table is exactly the level assignment of the specification grammar (`Surf.wf` uses these levels) -/
+theorem C02_table_is_spec :
+    Tok.prec .pre = (negLevel, false) ∧ Tok.prec .post = (pctLevel, true) ∧
+    ∀ op : InOp, Tok.prec (.inf op) = (op.level, true) := prec_spec
+
+/-! ### "Every well-formed Excel formula ... by Excel's grammar ... parentheses override" — the parse -/
+
+/-- shunting-yard inverts the grammar: for EVERY well-formed surface expression (any nesting of prefix minus, `%`,
+    the twelve binary operators, redundant parentheses, function calls with any number of arguments incl. missing
+    ones) the main loop of `_parse_to_rpn` outputs the RPN of the tree the grammar assigns -/
+theorem C02_parse (s : Surf) (h : s.wf = true) : parseRpn (atoks s) = some (rpn (erase s)) :=
+  parseRpn_atoks s h
+
+/-- the amend step (FUNC OPEN -> function + parenthesis, EMPTY operands for missing arguments) produces exactly the
+    stream `C02_parse` speaks about, for every surface expression the tokenizer can produce (`rawOk`: a missing
+    argument occurs only as an argument of a call, and `F()` has none) -/
+theorem C02_amend (s : Surf) (h : s.rawOk = true) : amend (toks s) = atoks s := amend_toks_all s h
+
+/-- `_parse_to_rpn` from the tokenizer's items to the RPN of the grammar's tree -/
+theorem C02_parse_raw (s : Surf) (h : s.wf = true) (hr : s.rawOk = true) : parseRaw (toks s) = some (rpn (erase s)) := by
+  rw [parseRaw, C02_amend s hr, C02_parse s h]
+
+/-- `_build_ast` inverts `rpn`, for every tree -/
+theorem C02_build (e : Expr) : buildAst (rpn e) = some e := buildAst_rpn e
+
+/-- tokens → tree: `ExcelFormula.ast` is the tree of the grammar; in particular redundant parentheses change nothing -/
+theorem C02_parse_tree (s : Surf) (h : s.wf = true) : parse (atoks s) = some (erase s) := by
+  simp [parse, C02_parse s h, C02_build]
+
+/-! ### "compiles to code whose result equals ..." — the emitted Python means the tree -/
+
+/-- the emitted token list, read by Python's grammar, is the tree (same shape, Python operator names, `x%` as
+    `x / 100`), for every emittable tree: the parenthesisation of `emit` is sufficient under Python's own
+    precedences (`**` tighter than a unary minus on its left, unary minus tighter than `* /`, `&` looser than `+`) -/
+theorem C02_emit (e : Expr) (h : e.emittable) : pyParse (emit e) = some (toPy e) := pyParse_emit e h
+
+/-- what was wrong before the `fix:` commit: `=-2^2` is the tree (−2)^2, the code as pinned emitted `-2 ** 2`,
+    which Python reads as −(2^2) -/
+theorem emit_current_counterexample :
+    pyParse (emitCurrent (.bin .pow (.neg (.operand (.number ['2']))) (.operand (.number ['2'])))) =
+      some (.neg (.bin .pow (.num ['2']) (.num ['2']))) ∧
+    toPy (.bin .pow (.neg (.operand (.number ['2']))) (.operand (.number ['2']))) =
+      .bin .pow (.neg (.num ['2'])) (.num ['2']) := ⟨by rfl, by rfl⟩
+
+/-! ### "Literals denote themselves" -/
+
+/-- a text literal yields exactly its characters, for EVERY character list (quotes, backslashes, newlines, braces):
+    the TEXT token of `s` is emitted as a Python literal whose escape processing gives back `s` -/
+theorem C02_literal_text (s : List Char) :
+    pyParse (emit (.operand (.text (quoteText s)))) = some (.str s) := by
+  have h := C02_emit (.operand (.text (quoteText s))) ⟨s, rfl⟩
+  rw [h]; simp [toPy, toPyOperand, stripQuotes_quoteText, undouble_dbl]
+
+/-- the same at the level of the literal body: unescape ∘ escape ∘ strip-quotes ∘ quote = id -/
+theorem C02_literal (s : List Char) : pyUnescape (escBody true (stripQuotes (quoteText s))) = some s := by
+  rw [stripQuotes_quoteText, escBody_dbl, pyUnescape_pyEsc]
+
+/-- before the `fix:` commit: `="a\nb"` (backslash, n) denoted a newline, `="a\"` was not a Python literal -/
+theorem literal_current_counterexample :
+    pyUnescape (escBody false (stripQuotes (quoteText ['a', '\\', 'n', 'b']))) = some ['a', '\n', 'b'] ∧
+    pyUnescape (escBody false (stripQuotes (quoteText ['a', '\\']))) = none := by decide
+
+/-- numbers denote their value: every NUMBER token the decimal reading accepts (digits, optional fraction, optional
+    exponent, leading zeros allowed) is emitted as a literal that Python accepts and that denotes the same exact
+    rational; such an operand is therefore inside the scope of `C02_emit` -/
+theorem C02_number (t : List Char) (h : (numValue? t).isSome = true) :
+    pyNumValue? (emitNumber true t) = numValue? t ∧ (Expr.operand (.number t)).emittable := by
+  have := pyNumValue_emitNumber t h
+  exact ⟨this, by simp only [Expr.emittable, Operand.emittable]; rw [this]; exact h⟩
+
+/-- before the `fix:` commit: `007` was emitted verbatim, which Python's grammar rejects -/
+theorem number_current_counterexample :
+    pyNumValue? (emitNumber false ['0', '0', '7']) = none ∧ (numValue? ['0', '0', '7']).isSome = true ∧
+    emitNumber true ['0', '0', '7'] = ['7'] := by decide
+
+/-- TRUE / FALSE and error literals denote themselves -/
+theorem C02_literal_logical (b : Bool) :
+    pyParse (emit (.operand (.logical b))) = some (.name (if b then nmTrue else nmFalse)) := by
+  rw [C02_emit _ (by simp [Expr.emittable, Operand.emittable])]; rfl
+
+theorem C02_literal_error (e : Err) : pyParse (emit (.operand (.error e))) = some (.str (errText e)) := by
+  rw [C02_emit _ (by simp [Expr.emittable, Operand.emittable])]; rfl
+
+/-! ### composition: the compiled code evaluates to the value of the formula by Excel's grammar -/
+
+mutual
+theorem evalPy_toPy (sem : Sem α) : ∀ (e : Expr), evalPy sem (toPy e) = evalExcel sem e
+  | .operand o => by simp [toPy, evalExcel]
+  | .neg e => by simp [toPy, evalExcel, evalPy, evalPy_toPy sem e]
+  | .pct e => by simp [toPy, evalExcel, evalPy, evalPy_toPy sem e]
+  | .bin op l r => by
+    cases op <;> simp [toPy, evalExcel, evalPy, evalPyList, evalPy_toPy sem l, evalPy_toPy sem r]
+  | .func name args => by
+    have ih := evalPyList_toPy sem args
+    by_cases h1 : pyFuncBase name = nmPi
+    · simp [toPy, evalExcel, evalPy, h1]
+    by_cases h2 : pyFuncBase name = ['t', 'r', 'u', 'e']
+    · simp [toPy, evalExcel, evalPy, h2, nmPi]
+    by_cases h3 : pyFuncBase name = ['f', 'a', 'l', 's', 'e']
+    · simp [toPy, evalExcel, evalPy, h3, nmPi]
+    by_cases h4 : pyFuncBase name = ['a', 'r', 'r', 'a', 'y'] ∨ pyFuncBase name = ['a', 'r', 'r', 'a', 'y', 'r', 'o', 'w']
+    · simp only [toPy, evalExcel, h1, h2, h3, h4, if_true, if_false, evalPy, ih]
+    · simp only [toPy, evalExcel, h1, h2, h3, h4, if_false, evalPy, ih]
+theorem evalPyList_toPy (sem : Sem α) : ∀ (es : List Expr), evalPyList sem (toPyList es) = evalExcelList sem es
+  | [] => rfl
+  | e :: es => by simp [toPyList, evalPyList, evalExcelList, evalPy_toPy sem e, evalPyList_toPy sem es]
+end
+
+/-- **C02 (soundness)**: for every well-formed surface expression whose tree is emittable, every run-time semantics
+    `sem` (hence every environment of cell values: cell reads are `sem.call "_C_"`), parsing the tokens, emitting
+    Python, reading it by Python's grammar and evaluating gives the value of the tree the grammar assigns -/
+theorem C02_sound (sem : Sem α) (s : Surf) (h : s.wf = true) (he : (erase s).emittable) :
+    ((parse (atoks s)).bind fun e => (pyParse (emit e)).map (evalPy sem)) = some (evalExcel sem (erase s)) := by
+  simp [C02_parse_tree s h, C02_emit _ he, evalPy_toPy]
+
+/-- the same from the tokenizer's items (amend step included) -/
+theorem C02_sound_raw (sem : Sem α) (s : Surf) (h : s.wf = true) (hr : s.rawOk = true) (he : (erase s).emittable) :
+    (((parseRaw (toks s)).bind buildAst).bind fun e => (pyParse (emit e)).map (evalPy sem)) =
+      some (evalExcel sem (erase s)) := by
+  simp [C02_parse_raw s h hr, C02_build, C02_emit _ he, evalPy_toPy]
+
+/-! ### non-vacuity -/
+
+/-- `-2^2` is well-formed as (−2)^2, and only so -/
+example : (Surf.bin .pow (.neg (.operand (.number ['2']))) (.operand (.number ['2']))).wf = true := by decide
+example : (Surf.neg (.bin .pow (.operand (.number ['2'])) (.operand (.number ['2'])))).wf = false := by decide
+example : parseRpn [.pre, .operand (.number ['2']), .inf .pow, .operand (.number ['2'])] =
+    some [.operand (.number ['2']), .pre, .operand (.number ['2']), .inf .pow] := by decide
+/-- `SUM(1+2*3, , (4))%` : function call with a missing argument, postfix %, redundant parentheses -/
+example : (Surf.pct (.func ['S', 'U', 'M'] [.bin .add (.operand (.number ['1'])) (.bin .mul (.operand (.number ['2']))
+    (.operand (.number ['3']))), .operand .empty, .paren (.operand (.number ['4']))])).wf = true := by decide
+example : parseRpn (atoks (Surf.pct (.func ['S', 'U', 'M'] [.bin .add (.operand (.number ['1']))
+      (.bin .mul (.operand (.number ['2'])) (.operand (.number ['3']))), .operand .empty,
+      .paren (.operand (.number ['4']))]))) =
+    some [.operand (.number ['1']), .operand (.number ['2']), .operand (.number ['3']), .inf .mul, .inf .add,
+      .operand .empty, .operand (.number ['4']), .func ['S', 'U', 'M'] 3, .post] := by decide
+example : (Surf.pct (.func ['S', 'U', 'M'] [.bin .add (.operand (.number ['1'])) (.bin .mul (.operand (.number ['2']))
+    (.operand (.number ['3']))), .operand .empty, .paren (.operand (.number ['4']))])).rawOk = true := by decide
+/-- an emittable tree with every kind of node -/
+example : (Expr.bin .lt (.pct (.neg (.operand (.range ['A', '1']))))
+    (.func ['M', 'A', 'X'] [.operand (.text (quoteText ['a', '"', '\\'])), .operand (.number ['0', '0', '7'])])).emittable := by
+  refine ⟨rfl, ?_, ⟨by decide, by decide⟩, ⟨['a', '"', '\\'], rfl⟩, ?_, trivial⟩
+  · show pyUnescape _ = some _; decide
+  · show (pyNumValue? _).isSome = true; decide
+
+end Pycel.Formula
